@@ -60,7 +60,7 @@ pub fn hedit() -> BoxedStrategy<HEdit> {
 pub fn header_plan() -> BoxedStrategy<Plan> {
     plan(PlanOpts {
         logical: LogicalOpts { max_segments: 0, max_query: 0, max_headers: 6, body_class: 0, raw_segments: false },
-        allow_s3: false,
+        allow_s3: true,
         allow_fold: false,
         form_bodies: false,
         ..PlanOpts::default()
